@@ -60,8 +60,8 @@ static void check_line(const RCfg& rc, const std::vector<int>& block_of, const s
          std::string xm; for (auto& w : words) if (w.size() > 2 && w[0] == '-' && w[1] == '-') { std::string k = w.substr(2, w.find('=') == std::string::npos ? std::string::npos : w.find('=') - 2);
             for (size_t i = 0; i < cfg.args.size(); ++i) if (cfg.args[i].lk == k) for (size_t j = 0; j < cfg.args.size(); ++j) if (block_of[j] != block_of[i] && cfg.args[j].lk.size() > k.size() && cfg.args[j].lk.compare(0, k.size(), k) == 0) xm = "|exact-key-is-prefix-in-other-member"; }
          std::string ctx = cfg.text() + " partition " + part + (rev ? " (members created in reverse order)" : "") + " line " + words_text(words);
-         if (single.kind == 0 && grp.kind == 0) { ++g_both_return; if (single.snap != grp.snap) vf::violation("values-differ|" + rc.family + xm, ctx + ": group gives " + snap_text(grp.snap) + ", single handler " + snap_text(single.snap), std::to_string(case_idx)); }
-         else if (single.kind != 0 && grp.kind != 0) ++g_both_throw;
+         if (single.kind == 0 && grp.kind == 0) { ++g_both_return; vf::outcome("both accept " + snap_text(grp.snap).substr(0, 80)); if (single.snap != grp.snap) vf::violation("values-differ|" + rc.family + xm, ctx + ": group gives " + snap_text(grp.snap) + ", single handler " + snap_text(single.snap), std::to_string(case_idx)); }
+         else if (single.kind != 0 && grp.kind != 0) { ++g_both_throw; vf::outcome("both reject: " + single.what.substr(0, 60)); }
          else if (single.kind != 0) vf::violation("group-accepts|" + rc.family + "|" + single.what.substr(0, single.what.find('\'')) + xm, ctx + ": rejected by the single handler (" + single.what + ") but accepted through the group", std::to_string(case_idx));
          else vf::violation("group-rejects|" + rc.family + "|" + grp.what.substr(0, grp.what.find('\'')) + xm, ctx + ": accepted by the single handler but rejected through the group (" + grp.what + ")", std::to_string(case_idx));
          int nb = 0; for (int b : block_of) nb = std::max(nb, b + 1); if (nb == 1) break;     // one member: creation order is irrelevant
